@@ -202,8 +202,8 @@ func c20Worker(w *core.WorkerCtx) {
 func init() {
 	core.Register(&core.Check{
 		Spec: core.Spec{
-			Prop: "C20",
-			Rule: "For every generated wallet (16 and 32 byte keys alternating): save/read round trip through encrypted GOB and PEM must return identical keys and address; then the encrypted file is replaced by every truncation 0..len-1, by 4 different single byte changes at every offset, by zero extensions, and read with every 1-bit neighbour of the key and 64 PRNG keys: ReadWallet (and Decrypt directly) must return an error; a returned wallet or a panic (recover) is a violation. Exhaustive over offsets and key bits for each wallet. Non-trivial = every corrupted/truncated/wrong-key case; distinct by (kind, offset, file region, key length).",
+			Prop:        "C20",
+			Rule:        "For every generated wallet (16 and 32 byte keys alternating): save/read round trip through encrypted GOB and PEM must return identical keys and address; then the encrypted file is replaced by every truncation 0..len-1, by 4 different single byte changes at every offset, by zero extensions, and read with every 1-bit neighbour of the key and 64 PRNG keys: ReadWallet (and Decrypt directly) must return an error; a returned wallet or a panic (recover) is a violation. Exhaustive over offsets and key bits for each wallet. Non-trivial = every corrupted/truncated/wrong-key case; distinct by (kind, offset, file region, key length).",
 			Assumptions: []string{"AES-GCM tag forgery probability is negligible", "wallets come from wallet.New (crypto/rand), keys from the seeded PRNG"},
 			Exhaustive:  true,
 			MinEvals:    2000, MinNontriv: 500,
